@@ -91,7 +91,7 @@ def alive_for_layers(arch, f_items, rep_of: Dict[int, int]) -> Dict[str, List[in
     return out
 
 
-def comp_reps(arch) -> Dict[int, int]:
+def comp_reps(arch, with_frozen: bool = False) -> Dict[int, Any]:
     """node -> smallest node of its sharing component, for searchable layers (mirror of FeatGraph.Rep; the
     harness needs it only to know WHERE to write alpha, never to decide a verdict)."""
     nodes = arch["nodes"]
@@ -123,6 +123,9 @@ def comp_reps(arch) -> Dict[int, int]:
                         seen.add(w)
                         st.append(w)
             rep[i] = min(seen)
+            if with_frozen:
+                defining_nodes = [u for u in seen if u <= n and defining(u)]
+                rep[i] = (min(seen), (0 in seen) or ((n + 1) in seen), bool(defining_nodes))
     return rep
 
 
